@@ -23,7 +23,19 @@ def run(ctx):
     return [
         refine.refine_batch(ctx, ctx.size(120, 1500), force=FORCE, pid=PID, name="trace-refinement(Tree.step vs DemeTree.run)"),
         runs.monitor_batch(ctx, PID, ctx.size(250, 3000), force=FORCE),
+        # a user-defined candidate generator that hands over several candidates per parent in population order
+        # (not ranked), no DemeLimit in front of the level limit: whatever it is offered, LevelLimit never lets
+        # more through than there are free slots (monitors only: the model knows the shipped generators)
+        runs.monitor_batch(ctx, PID, ctx.size(50, 500), salt=45, name="traced-runs-monitor-C08(user-defined generator, unranked candidates)", force=_user_generator),
     ]
+
+
+def _user_generator(rng):
+    sprout = {"kind": "custom", "generator": "user", "gen_dist_factor": 1.0, "trunc_factor": 1.0, "deme_filters": (["far"] if rng.random() < 0.4 else []), "far_enough": float(rng.uniform(0.01, 0.2)),
+              "fil_dist_factor": 1.0, "norm_ord": 2, "check_only_active": True, "deme_limit": 3, "tree_filters": ["levellimit"], "level_limit": int(rng.integers(1, 4))}
+    pop = ["sea", "de", "shade", "ga", "ded"]
+    return {"nlev": int(rng.choice([2, 2, 3])), "engines": {0: pop, 1: pop + ["cma"], 2: ["sea", "de", "cma"]}, "sprout": sprout,
+            "gsc": {"kind": "MetaepochLimit", "limit": int(rng.integers(4, 9))}, "lsc": {1: {"kind": "MetaepochLimit", "limit": 2}, 2: {"kind": "MetaepochLimit", "limit": 2}}}
 
 
 def search(ctx, broken):
